@@ -1388,7 +1388,23 @@ def c10(tier):
         for s in (("P", "d"), ("P", "usa"), ("D", "p")):
             drivers = [dict(name=f"H{i + 1}", kind="handle", host=hosts[i], ops=list(s)) for i in range(3)]
             tasks.append(f_task(f"c10-3x-{''.join(s)}", "cluster", drivers, "C10", (3, 0)))
-        bounds = "2 handles (hosts h1/h2 and h1/h1) x every pair of sequences of length <=2 over {D,P,p,d,us,uc,m,h} starting with a deserialize, all interleavings; 3 handles x length 1 all interleavings, 3 sequences of length 2 at budget 3"
+        # promotion through deserialize without the job status (deserialize_jobs=False)
+        for s1 in (("Pn",), ("Pn", "d"), ("Pn", "p"), ("Pn", "m")):
+            for s2 in seqs + [("Pn",), ("Pn", "d")]:
+                for h2 in ("h2", "h1"):
+                    drivers = [dict(name="H1", kind="handle", host="h1", ops=list(s1)),
+                               dict(name="H2", kind="handle", host=h2, ops=list(s2))]
+                    tasks.append(f_task(f"c10-{''.join(s1)}|{''.join(s2)}@{h2}-nojobs", "cluster", drivers, "C10", (99, 0)))
+        # a handle that has already written once and then holds a copy made stale by the other handle
+        writers = ("usa", "uca", "h")
+        for first in ("D", "P"):
+            for w1 in writers:
+                for w2 in writers:
+                    for w3 in writers:
+                        drivers = [dict(name="H1", kind="handle", host="h1", ops=[first, w1, w2]),
+                                   dict(name="H2", kind="handle", host="h2", ops=["D", w3])]
+                        tasks.append(f_task(f"c10-{first}{w1}{w2}|D{w3}-own-write-then-stale", "cluster", drivers, "C10", (99, 0)))
+        bounds = "2 handles (hosts h1/h2 and h1/h1) x every pair of sequences of length <=2 over {D,P,p,d,us,uc,m,h} starting with a deserialize, all interleavings; a handle with two job-status writes against a handle with one (54 pairs, all interleavings); promotion through deserialize without the job status (Pn) followed by demote/promote/mark-complete against every length-<=2 sequence; 3 handles x length 1 all interleavings, 3 sequences of length 2 at budget 3"
     else:
         seqs = c10_sequences(C10_FULL, 2)
         for i, s1 in enumerate(seqs):
@@ -1444,11 +1460,24 @@ def c10(tier):
             t2["scen"]["actors"][0]["host"] = host
             t2["id"] += "-" + host
             st.append(t2)
+    # a user command arriving while another process is INSIDE a critical section (sync level L2, 1 preemption by or of
+    # the intruder; its start is free): resubmit-jobs, cancel-jobs, try-submit-jobs
+    intruders = [("resubmit", resub_argv(1, 1, 0)), ("trysubmit", ["jade", "try-submit-jobs", "{out}"]), ("cancel", ["jade", "cancel-jobs", "{out}"])]
+    for g in (("single",) if tier == "quick" else ("single", "pair")):
+        bb = S.REP[g]
+        for nm, argv in intruders:
+            for host in ("login7", "login1"):
+                actors = [dict(name="intr", argv=argv, host=host, guard="submitted"), rec_actor(len(bb))]
+                sc = mk_scen(bb, dict(size=1, max_nodes=None), actors=actors)
+                sc["level"] = 2
+                sc["preempt_focus"] = ["intr"]
+                t = dict(id=f"intruder-{nm}-{g}-{host}-L2-b1", scen=sc, oracles=["Obs", "C10S"], budget=(1, 0), cls="intruder-L2")
+                st += shard([t], 4)
     for t in st:
         t["id"] = "c10s-" + t["id"]
     tasks += st
     bounds += ("; system level: the submitter field on disk across real submit-jobs / run-jobs / try-submit-jobs processes (REP graphs, "
-               f"{sb[0]} preemption(s); user-run try-submit-jobs at any point from the submitter's host and another; try-submit-jobs on a submission that is completing / complete; cancel-jobs at any point from three hosts)")
+               f"{sb[0]} preemption(s); user-run try-submit-jobs at any point from the submitter's host and another; try-submit-jobs on a submission that is completing / complete; cancel-jobs at any point from three hosts; resubmit-jobs / try-submit-jobs / cancel-jobs started while another process is inside a critical section (sync level L2, 1 preemption by or of the intruder))")
     return explore_check("C10", tier, tasks, F_RULE + "; the system-level scenarios use the mode-S rule", F_ASSUMPTIONS + ["reference for return values/final files: the same operations executed one at a time in lock-acquisition order by the real Cluster class (linearizability witness); mutual exclusion, promotion and stale-write clauses are independent of it"], dict(bounds=bounds))
 
 
